@@ -680,7 +680,62 @@ func gen(a Args, out *Out) {
 			emit("single", []Sx{wop(t), Ints(3), pop(k), rop(k), Ints(3)})
 		}
 	}
-	nseq := 500
+	// directed: a wide peek over 8-bit fields, the fields consumed by 8-bit reads, then the same
+	// wide peek / read again (a remembered peek must not survive the narrow reads); and the
+	// smallest capacity case: 8 x uint64 fill the first 64-byte array, read one, write one
+	for _, wk := range []int{kU16, kI16, kU32, kI32, kF32, kU64, kI64, kF64, kUint, kInt} {
+		for rep := 0; rep < 3; rep++ {
+			var ops []Sx
+			n := widthOf(wk)
+			var small []tv
+			for i := 0; i < n; i++ {
+				k := rng.PickInt(kBool, kU8, kI8)
+				small = append(small, tv{k, genValue(rng, k, out)})
+			}
+			wide := []tv{{wk, genValue(rng, wk, out)}, {wk, genValue(rng, wk, out)}}
+			for _, t := range small {
+				ops = append(ops, wop(t))
+			}
+			for _, t := range wide {
+				ops = append(ops, wop(t))
+			}
+			ops = append(ops, pop(wk))
+			for i, t := range small {
+				ops = append(ops, rop(t.k))
+				if rep == 2 && i == n/2 {
+					ops = append(ops, pop(wk))
+				}
+			}
+			ops = append(ops, pop(wk), rop(wk), pop(wk), rop(wk), Ints(3))
+			emit("stale-peek", ops)
+		}
+	}
+	for _, fill := range []int{8, 16, 32, 64} {
+		for nread := 1; nread <= 2; nread++ {
+			var ops []Sx
+			var q []tv
+			for i := 0; i < fill; i++ {
+				t := tv{kU64, genValue(rng, kU64, out)}
+				q = append(q, t)
+				ops = append(ops, wop(t))
+			}
+			for i := 0; i < nread; i++ {
+				ops = append(ops, rop(kU64))
+				q = q[1:]
+			}
+			for _, k := range []int{kU64, kU16, kU8, kF64} {
+				t := tv{k, genValue(rng, k, out)}
+				q = append(q, t)
+				ops = append(ops, wop(t))
+			}
+			for _, t := range q {
+				ops = append(ops, rop(t.k))
+			}
+			ops = append(ops, Ints(3))
+			emit("capacity", ops)
+		}
+	}
+	nseq := 750
 	if a.Thorough() {
 		nseq = 8000
 	}
@@ -689,7 +744,62 @@ func gen(a Args, out *Out) {
 		n := r.Range(1, 40)
 		w := genWrites(r, n, out)
 		var ops []Sx
-		switch r.Intn(4) {
+		switch r.Intn(6) {
+		case 4: // FIFO use with peeks of ANY kind at ANY time (wider than what follows / remains too)
+			pending, next := 0, 0
+			for next < len(w) || pending > 0 {
+				for r.Chance(1, 2) {
+					ops = append(ops, pop(r.Intn(nKinds)))
+				}
+				if next < len(w) && (pending == 0 || r.Bool()) {
+					ops = append(ops, wop(w[next]))
+					next++
+					pending++
+				} else {
+					t := w[next-pending]
+					ops = append(ops, rop(t.k))
+					pending--
+				}
+			}
+			ops = append(ops, pop(r.Intn(nKinds)), Ints(3))
+			emit("foreign-peek", ops)
+			continue
+		case 5: // fill exactly to (or next to) a capacity boundary, read a little, write again
+			target := r.PickInt(64, 128, 256, 512, 1024, 2048) + r.PickInt(0, 0, 0, -1, 1, -8, 8)
+			var q []tv
+			total := 0
+			for total < target {
+				k := r.Intn(nKinds)
+				if r.Chance(1, 2) {
+					k = r.PickInt(kU64, kI64, kF64)
+				}
+				if total+widthOf(k) > target {
+					k = kU8
+				}
+				t := tv{k, genValue(r, k, out)}
+				q = append(q, t)
+				ops = append(ops, wop(t))
+				total += widthOf(k)
+			}
+			for rounds := r.Range(1, 4); rounds > 0 && len(q) > 0; rounds-- {
+				for j := r.Range(1, 3); j > 0 && len(q) > 0; j-- {
+					ops = append(ops, rop(q[0].k))
+					q = q[1:]
+				}
+				for j := r.Range(1, 4); j > 0; j-- {
+					k := r.Intn(nKinds)
+					t := tv{k, genValue(r, k, out)}
+					q = append(q, t)
+					ops = append(ops, wop(t))
+				}
+			}
+			ops = append(ops, Ints(3))
+			for _, t := range q {
+				ops = append(ops, rop(t.k))
+			}
+			ops = append(ops, Ints(3))
+			emit("capacity", ops)
+			continue
 		case 0: // write all, Bytes(), read all
 			for _, t := range w {
 				ops = append(ops, wop(t))
